@@ -137,6 +137,24 @@ func eof1(p *core.Prog, rep *core.Report) {
 					}
 				}
 			}
+			// an unexported helper of the package that is handed numbers only (it cannot look at content) and at least one
+			// of them derives from the size: `blockExtent(blockID, fileSize)`
+			if c := u.Common().StaticCallee(); c != nil && c.Package() != nil && c.Package().Pkg.Path() == core.ModPath+"/datafile" && !token.IsExported(c.Name()) && c.Signature.Recv() == nil {
+				numeric, any := true, false
+				for _, a := range u.Call.Args {
+					if _, isBasic := a.Type().Underlying().(*types.Basic); !isBasic {
+						numeric = false
+					}
+					if derives(a, d+1) {
+						any = true
+					}
+				}
+				return numeric && any
+			}
+		case *ssa.Extract:
+			if c, ok := u.Tuple.(*ssa.Call); ok {
+				return derives(c, d+1)
+			}
 		case *ssa.BinOp:
 			return derives(u.X, d+1) || derives(u.Y, d+1)
 		case *ssa.Convert:
@@ -144,6 +162,9 @@ func eof1(p *core.Prog, rep *core.Report) {
 		case *ssa.UnOp:
 			if f, _ := core.LoadedField(u); f != nil && sizeFields[f] {
 				return true
+			}
+			if u.Op == token.NOT {
+				return derives(u.X, d+1)
 			}
 		case *ssa.Phi:
 			for _, e := range u.Edges {
@@ -177,6 +198,8 @@ func eof1(p *core.Prog, rep *core.Report) {
 			for _, pb := range r.Block().Preds {
 				if iff, ok := pb.Instrs[len(pb.Instrs)-1].(*ssa.If); ok && len(r.Block().Preds) == 1 {
 					if bo, ok := iff.Cond.(*ssa.BinOp); ok && (derives(bo.X, 0) || derives(bo.Y, 0)) {
+						okc = true
+					} else if !ok && derives(iff.Cond, 0) {
 						okc = true
 					}
 				}
